@@ -33,9 +33,9 @@ PERFT = {  # published perft numbers (sanity of the specification itself, never 
 }
 
 TIERS = {
-    "quick": dict(bfs_cfg="ChessBfs.cfg", bfs_timeout=300, sim_procs=16, sim_num=2, sim_depth=120,
+    "quick": dict(bfs_cfg="ChessBfs.cfg", bfs_timeout=300, worlds=["ep2", "castle1"], sim_procs=16, sim_num=2, sim_depth=120,
                   rec_shards=16, rec_games=2, rec_plies=50, rec_synth=40, perft_depth=2, perft_n=3),
-    "thorough": dict(bfs_cfg="ChessBfs2.cfg", bfs_timeout=1500, sim_procs=16, sim_num=25, sim_depth=300,
+    "thorough": dict(bfs_cfg="ChessBfs2.cfg", bfs_timeout=1500, worlds=["ep1", "ep2full", "castle1", "castle2"], sim_procs=16, sim_num=25, sim_depth=300,
                      rec_shards=16, rec_games=16, rec_plies=120, rec_synth=500, perft_depth=3, perft_n=6),
 }
 
@@ -113,7 +113,11 @@ def validate_trace(trace_path, tag):
 
 
 def shared_run(tier, seed):
-    key = vlib.tree_hash(("rules", tier, seed))
+    key = vlib.tree_hash(("rules", tier, seed),
+                         spec_files=["ChessRules.tla", "Chess.tla", "ChessTrace.tla", "mc/ChessBfs.cfg", "mc/ChessBfs2.cfg", "mc/ChessSim.cfg",
+                                     "mc/ChessTrace.cfg", "mc/ChessPerft.cfg", "mc/ChessPerft2.cfg", "mc/ChessWorld_ep1.cfg",
+                                     "mc/ChessWorld_ep2.cfg", "mc/ChessWorld_ep2full.cfg", "mc/ChessWorld_castle1.cfg", "mc/ChessWorld_castle2.cfg"],
+                         lib_files=["rules.py", "vlib.py"])
     cdir = os.path.join(vlib.BUILD, "cache")
     os.makedirs(cdir, exist_ok=True)
     cfile = os.path.join(cdir, "rules_%s.json" % key)
@@ -155,6 +159,37 @@ def shared_run(tier, seed):
     out["samples"].append({"phase": "A", "state": {k: first[k] for k in ("fen", "chk", "tact")}, "n_succ": len(first["succ"]),
                            "succ_sample": first["succ"][:2]})
     log("[rules] A: %d distinct positions, %d successors compared, %d mismatches" % (res.distinct, summ.get("successors", 0), len(mism)))
+
+    # ---- phase W: generated families (en-passant and castling "worlds"), enumerated exhaustively
+    wstats = {}
+    for world in T["worlds"]:
+        base = open(os.path.join(vlib.SPEC, "mc", "ChessWorld_%s.cfg" % world)).read()
+
+        def wshard(i, world=world, base=base):
+            cfg = os.path.join(work, "world_%s_%d.cfg" % (world, i))
+            open(cfg, "w").write(base.replace("Shard = 0", "Shard = %d" % i).replace("NShards = 1", "NShards = 16"))
+            emit = os.path.join(work, "world_%s_%d.ndjson" % (world, i))
+            r = vlib.run_tlc("Chess", cfg, env={"SEEDS": seeds}, workers=1, emit_to=emit, xmx="3g", timeout=3000)
+            vlib.tlc_must_be_clean(r, "Chess world " + world)
+            if r.distinct == 0:
+                return emit, r, [], {"states": 0}
+            mm, ss = _harness_replay(exe, emit, "bfs")
+            if ss["states"] != r.distinct:
+                raise ToolError("world %s shard %d: %d records for %d states" % (world, i, ss["states"], r.distinct))
+            return emit, r, mm, ss
+        agg = {}
+        nm = 0
+        for emit, r, mm, ss in vlib.parallel(wshard, range(16)):
+            add_mismatches(mm, emit, "bfs", "world " + world)
+            nm += len(mm)
+            out["tlc_states"] += r.distinct
+            out["tlc_transitions"] += r.generated
+            for k, v in ss.items():
+                if isinstance(v, int):
+                    agg[k] = agg.get(k, 0) + v
+        wstats[world] = agg
+        log("[rules] W(%s): %d positions, %d mismatches" % (world, agg.get("states", 0), nm))
+    out["phases"]["W_worlds"] = wstats
 
     # ---- phase B: simulated games
     def sim(i):
